@@ -66,7 +66,9 @@ def make_payload(kind, nrec, variant, sdir, rng):
             size = [(nrec - 1) * CHUNK + 1, nrec * CHUNK, nrec * CHUNK - 1, (nrec - 1) * CHUNK + CHUNK // 2][variant % 4]
         # (names: ordinary, with a space, non-ASCII in NFC, leading dash, ".tmp"; and names that are *not* in NFC form as
         # given - decomposed accent as macOS produces, ANGSTROM SIGN, ligature: the receiver must get exactly these)
-        names = ["f.bin", "with space.txt", "ünï.dat", "-dash", "trailing.tmp", "cafe\u0301.txt", "\u212bngstrom \ufb01le.bin"]
+        # ... and names containing what is a separator or a drive prefix on *other* systems (here they are ordinary characters)
+        names = ["f.bin", "with space.txt", "ünï.dat", "-dash", "trailing.tmp", "cafe\u0301.txt", "\u212bngstrom \ufb01le.bin",
+                 "back\\slash.bin", "a:colon.txt", "semi;colon &amp.dat"]
         name = names[(variant + rng.randrange(len(names))) % len(names)]
         # content: random bytes; or long runs of one byte value - all zeros, zeros in the last / first record only (a disk
         # image, a padded archive), all 0xff - which a writer that treats some bytes specially would give itself away on
@@ -78,7 +80,7 @@ def make_payload(kind, nrec, variant, sdir, rng):
             f.write(content)
         return name, size
     # directory tree with an empty directory, an empty file, odd names and (nrec-dependent) bulk
-    root = os.path.join(sdir, ["tree %d", "tre\u0301e %d", "\u212b tree %d"][rng.randrange(3)] % variant)
+    root = os.path.join(sdir, ["tree %d", "tre\u0301e %d", "\u212b tree %d", "back\\slash tree %d", "c:tree %d"][rng.randrange(5)] % variant)
     os.makedirs(os.path.join(root, "sub", "deeper"))
     os.makedirs(os.path.join(root, "empty dir"))
     with open(os.path.join(root, "a.txt"), "wb") as f:
